@@ -118,8 +118,9 @@ BUILTIN_EXC = {
 
 
 class Interp:
-    def __init__(self, repo, externals=None, to_float=None):
+    def __init__(self, repo, externals=None, to_float=None, str_hook=None):
         self.repo = repo
+        self.str_hook = str_hook  # (string, method name) -> callable or None: token-aware string methods
         self.externals = externals or {}
         self.to_float = to_float
         self.steps = 0
@@ -428,6 +429,10 @@ class Interp:
         if hasattr(base, "m_getattr"):
             return base.m_getattr(self, attr)
         if isinstance(base, str) and attr in STR_METHODS:
+            if self.str_hook is not None:
+                h = self.str_hook(base, attr)
+                if h is not None:
+                    return Builtin(h, "str." + attr)
             return Builtin(getattr(base, attr), "str." + attr)
         if isinstance(base, list) and attr in LIST_METHODS:
             return Builtin(getattr(base, attr), "list." + attr)
